@@ -707,6 +707,12 @@ impl Rasn {
                     value,
                     Some(&self.to_rust_title_case(&self.type_to_tokens(&member.ty)?.to_string())),
                 )?;
+                // a referenced value is a constant or a lazily initialised static: return a copy
+                let val = if matches!(value, ASN1Value::LinkedElsewhereDefinedValue { .. }) {
+                    quote!(#val.clone())
+                } else {
+                    val
+                };
                 let ty = self.type_to_tokens(&member.ty)?;
                 let method_name = self.default_method_name(parent_name, &member.name);
                 output.append_all(quote! {
